@@ -167,7 +167,17 @@ def run_one(kind, inp):
     if kind == "seg":
         pts = [tuple(p) for p in inp["pts"]]
         return check_segment(pts) or check_after_edit(pts)
-    return check_path([[tuple(p) for p in s] for s in inp["segs"]])
+    segs = [[tuple(p) for p in s] for s in inp["segs"]]
+    chained = []
+    cur = segs[0][0]
+    for sg in segs:        # translate every segment onto the end of the previous one: a connected path for the in-place operations
+        dx, dy = cur[0] - sg[0][0], cur[1] - sg[0][1]
+        sg2 = [(x + dx, y + dy) for x, y in sg]
+        sg2[0] = cur
+        chained.append(sg2)
+        cur = sg2[-1]
+    return check_path(segs) or oc.path_stale_check(chained, False, hash(repr(segs)) & 0xFFFFFF, [
+        ("bounds()", lambda g: (lambda b: (b.left, b.bottom, b.right, b.top))(g.bounds()))])
 
 
 def search(ctx, budget):
@@ -184,7 +194,7 @@ def search(ctx, budget):
             kind = "path"
         else:
             order = 2 + i % 3
-            fam = ["int", "grid", "arch", "elevated", "dyadic", "float", "collinear", "coincident", "arch"][(i // 3) % 9]
+            fam = ["int", "grid", "arch", "elevated", "dyadic", "float", "collinear", "coincident", "arch", "evenspaced", "tiny", "retracted", "teardrop"][(i // 3) % 13]
             fams[fam] = fams.get(fam, 0) + 1
             inp = {"pts": oc.rand_seg_pts(rng, order, fam)}
             kind = "seg"
